@@ -7,6 +7,7 @@ package timestamp
 // Touch records a new stamp for the graph: ghost set touched. TRUSTED (sync.Map and the
 // clock are not modelled; time.Now().UnixNano() is assumed to increase between calls).
 //@ func (*Timestamp).Touch
+//@   vars ts name
 //@   trusted
 //@   modifies TS.
 //@   ensures def: same(touchedset(), store(old(touchedset()), name, true))
